@@ -72,5 +72,6 @@ class Run:
         if self.machinery_errors:
             for m in self.machinery_errors[:20]:
                 print("MACHINERY-ERROR:", m, file=sys.stderr)
-            return 2
-        return 1 if self.violations else 0
+        if self.violations:
+            return 1
+        return 2 if self.machinery_errors else 0
